@@ -1,4 +1,175 @@
-(* Props/C08.v — placeholder while the pipeline is brought up; replaced by the pinned statements. *)
-From BSV Require Import Base.Hex Model.Bip32.
-Example C08_placeholder : parse_path (list_ascii_of_string "m/1'") = Ok [2147483649%N].
-Proof. vm_compute. reflexivity. Qed.
+(* Props/C08.v — pinned statements of property C08 (BIP32 derivation and xprv/xpub serialisation match
+   the standard).  Statements only; proofs are in Proofs/Bip32Proofs.v and Proofs/Bip32PathProofs.v.
+
+   Model/Bip32.v is the transcription of src/keypair/extended_{private,public}_key.rs (tied to the Rust code
+   by the correspondence run); Spec/Bip32Spec.v is BIP32 written from the text over the published
+   primitives of Prim/ (tied to the standard by the BIP32 test vectors 1-3 in Proofs/Bip32Kat.v, which
+   are evaluated for the specification AND for the model).  Every statement is for an arbitrary curve
+   interface [E : ec_ops] and therefore for [ec_fast], the instance the correspondence run executes;
+   group laws appear as explicit premises ([ec_group_laws], commutativity, SEC1 decode-after-encode),
+   they are NOT proved for the concrete secp256k1 formulas.
+
+   [model_of_spec] / [pmodel_of_spec] embed a specification-level extended key into the model's record
+   (public key bytes = serP(point k), compressed). *)
+From BSV Require Import Base.Hex Prim.Base58 Prim.Secp256k1 Model.HashApi Model.EcIface Model.Bip32 Spec.Bip32Spec.
+From BSV Require Import Proofs.Bip32Proofs Proofs.Bip32PathProofs.
+Local Open Scope Z_scope.
+
+(* 1. master key, private and public child derivation equal the specification *)
+Theorem C08_master_eq_spec :
+  forall E seed, xprv_from_seed E seed = of_option (option_map (model_of_spec E) (master seed)).
+Proof. exact master_eq_spec. Qed.
+Print Assumptions C08_master_eq_spec.
+
+Theorem C08_ckd_priv_eq_spec :
+  forall E x i,
+    (sdepth x <= 255)%N ->
+    parse256 (firstn 32 (I_priv E (sk x) (sc x) i)) <> 0 ->
+    xprv_derive E (model_of_spec E x) i = of_option (option_map (model_of_spec E) (child_priv E x i)).
+Proof. exact ckd_priv_eq_spec. Qed.
+Print Assumptions C08_ckd_priv_eq_spec.
+
+(* the excluded case: the library refuses IL = 0, which BIP32 allows (needs a 256-bit HMAC-SHA512 preimage) *)
+Theorem C08_ckd_priv_il_zero_refused :
+  forall E x i,
+    parse256 (firstn 32 (I_priv E (sk x) (sc x) i)) = 0 -> xprv_derive E (model_of_spec E x) i = Err.
+Proof. exact ckd_priv_il_zero_refused. Qed.
+Print Assumptions C08_ckd_priv_il_zero_refused.
+
+Theorem C08_ckd_pub_eq_spec :
+  forall E (X : sxpub E) i,
+    (forall P Q, ec_add E P Q = ec_add E Q P) ->
+    ec_dec E (serP E (sK E X)) = Some (sK E X) ->
+    (sDepth E X <= 255)%N ->
+    parse256 (firstn 32 (I_pub E (sK E X) (sC E X) i)) <> 0 ->
+    xpub_derive E (pmodel_of_spec E X) i = of_option (option_map (pmodel_of_spec E) (child_pub E X i)).
+Proof. exact ckd_pub_eq_spec. Qed.
+Print Assumptions C08_ckd_pub_eq_spec.
+
+(* 2. neutering commutes with normal derivation: public key, chain code, depth, index and fingerprint *)
+Theorem C08_neuter_commutes :
+  forall E x i,
+    ec_group_laws E ->
+    in_scalar (xs_key x) = true ->
+    xs_pub x = pub_of_priv E (xs_key x) (xs_comp x) ->
+    (i < 2 ^ 31)%N ->
+    omap xpub_from_xprv (xprv_derive E x i) = xpub_derive E (xpub_from_xprv x) i.
+Proof. exact neuter_commutes_laws. Qed.
+Print Assumptions C08_neuter_commutes.
+
+(* its two premises on the parent hold for every key produced by from_seed, derive or from_string *)
+Theorem C08_invariant :
+  forall E,
+    (forall seed x, xprv_from_seed E seed = Ok x ->
+       in_scalar (xs_key x) = true /\ xs_pub x = pub_of_priv E (xs_key x) (xs_comp x)) /\
+    (forall x i y, xprv_derive E x i = Ok y ->
+       in_scalar (xs_key y) = true /\ xs_pub y = pub_of_priv E (xs_key y) (xs_comp y)) /\
+    (forall s x, xprv_from_string E s = Ok x ->
+       in_scalar (xs_key x) = true /\ xs_pub x = pub_of_priv E (xs_key x) (xs_comp x)).
+Proof.
+  exact (fun E => conj (from_seed_invariant E) (conj (derive_invariant E) (from_string_invariant E))).
+Qed.
+Print Assumptions C08_invariant.
+
+(* 3. hardened derivation from a public key is refused *)
+Theorem C08_hardened_pub_refused : forall E x i, (2 ^ 31 <= i)%N -> xpub_derive E x i = Err.
+Proof. exact hardened_pub_refused. Qed.
+Print Assumptions C08_hardened_pub_refused.
+
+(* 4. serialisation: equals the specification's; key -> string -> key; string -> key -> string;
+      anything that is not the Base58Check encoding of 78 bytes is refused; never a panic *)
+Theorem C08_to_string_priv_eq_spec : forall E x, xprv_to_string (model_of_spec E x) = serialize_priv x.
+Proof. exact to_string_priv_eq_spec. Qed.
+Print Assumptions C08_to_string_priv_eq_spec.
+
+Theorem C08_to_string_pub_eq_spec : forall E (X : sxpub E), xpub_to_string (pmodel_of_spec E X) = serialize_pub E X.
+Proof. exact to_string_pub_eq_spec. Qed.
+Print Assumptions C08_to_string_pub_eq_spec.
+
+Theorem C08_xprv_roundtrip :
+  forall E x,
+    in_scalar (xs_key x) = true /\ xs_comp x = true /\ xs_pub x = pub_of_priv E (xs_key x) true /\
+    length (xs_cc x) = 32%nat /\ length (xs_fp x) = 4%nat /\ (xs_depth x < 256)%N /\ (xs_index x < 2 ^ 32)%N ->
+    xprv_from_string E (xprv_to_string x) = Ok x.
+Proof. exact xprv_roundtrip. Qed.
+Print Assumptions C08_xprv_roundtrip.
+
+Theorem C08_xpub_roundtrip :
+  forall E x,
+    length (xp_pub x) = 33%nat /\ ec_dec E (xp_pub x) <> None /\
+    length (xp_cc x) = 32%nat /\ length (xp_fp x) = 4%nat /\ (xp_depth x < 256)%N /\ (xp_index x < 2 ^ 32)%N ->
+    xpub_from_string E (xpub_to_string x) = Ok x.
+Proof. exact xpub_roundtrip. Qed.
+Print Assumptions C08_xpub_roundtrip.
+
+Theorem C08_xprv_string_roundtrip :
+  forall E s x, xprv_from_string E s = Ok x -> xprv_to_string x = s /\ xprv_ok E x.
+Proof. exact xprv_string_roundtrip. Qed.
+Print Assumptions C08_xprv_string_roundtrip.
+
+Theorem C08_xpub_string_roundtrip :
+  forall E s x, xpub_from_string E s = Ok x -> xpub_to_string x = s /\ xpub_ok E x.
+Proof. exact xpub_string_roundtrip. Qed.
+Print Assumptions C08_xpub_string_roundtrip.
+
+Theorem C08_corrupt_rejected :
+  forall E s,
+    (match b58_decode s with
+     | None => True
+     | Some bs => length bs <> 82%nat \/ skipn 78 bs <> firstn 4 (sha_256d (firstn 78 bs))
+     end) ->
+    xprv_from_string E s = Err /\ xpub_from_string E s = Err.
+Proof. exact corrupt_rejected. Qed.
+Print Assumptions C08_corrupt_rejected.
+
+Theorem C08_from_string_total :
+  forall E s, xprv_from_string E s <> Panic /\ xpub_from_string E s <> Panic.
+Proof. exact (fun E s => conj (xprv_from_string_total E s) (xpub_from_string_total E s)). Qed.
+Print Assumptions C08_from_string_total.
+
+(* 5. the path parser accepts exactly the explicitly described language, and reads the standard
+      notation as the standard list of child numbers; the bare "m" is refused *)
+Theorem C08_path_grammar : forall p idx, parse_path p = Ok idx <-> path_language p idx.
+Proof. exact path_grammar. Qed.
+Print Assumptions C08_path_grammar.
+
+Theorem C08_std_paths_ok : forall p idx, std_path p = Some idx -> idx <> [] -> parse_path p = Ok idx.
+Proof. exact std_paths_ok. Qed.
+Print Assumptions C08_std_paths_ok.
+
+(* --- non-vacuity ---------------------------------------------------- *)
+Definition chars (s : string) : list ascii := list_ascii_of_string s.
+
+Example C08_std_path_examples :
+  std_path (chars "m/0'/1/2h/2/1000000000") = Some [2147483648; 1; 2147483650; 2; 1000000000]%N /\
+  std_path (chars "M/44H/0'/0h/0/5") = Some [2147483692; 2147483648; 2147483648; 0; 5]%N /\
+  std_path (chars "m") = Some [] /\ std_path (chars "m/") = None /\ std_path (chars "m/2147483648") = None /\
+  std_path (chars "m/1''") = None /\ std_path (chars "m/+1") = None /\ std_path (chars "m//1") = None.
+Proof. repeat split; vm_compute; reflexivity. Qed.
+
+Example C08_parse_path_examples :
+  parse_path (chars "m/0'/1/2h/2/1000000000") = Ok [2147483648; 1; 2147483650; 2; 1000000000]%N /\
+  parse_path (chars "m") = Err /\ parse_path (chars "m/") = Err /\
+  parse_path (chars "m0") = Ok [0%N] /\ parse_path (chars "m/+1") = Ok [1%N] /\ parse_path (chars "m//1/") = Ok [1%N] /\
+  parse_path (chars "m/1Hh''") = Ok [2147483649%N] /\ parse_path (chars "m/1'h") = Err /\
+  parse_path (chars "m/2147483648") = Err /\ parse_path (chars "m/4294967296'") = Err /\ parse_path (chars "n/1") = Err.
+Proof. repeat split; vm_compute; reflexivity. Qed.
+
+(* the group-law premises are jointly satisfiable (integers modulo n, generator 1), and on that instance
+   derivation succeeds, so C08_neuter_commutes and the eq_spec theorems are not vacuous *)
+Example C08_premises_satisfiable :
+  ec_group_laws ec_toy /\ (forall P Q, ec_add ec_toy P Q = ec_add ec_toy Q P) /\
+  exists x y, xprv_from_seed ec_toy (lcg_bytes 16 1) = Ok x /\ xprv_derive ec_toy x 5 = Ok y /\
+              xpub_derive ec_toy (xpub_from_xprv x) 5 = Ok (xpub_from_xprv y).
+Proof.
+  split; [exact toy_group_laws|]. split; [exact toy_add_comm|].
+  eexists. eexists. split; [vm_compute; reflexivity|]. split; vm_compute; reflexivity.
+Qed.
+
+Example C08_corrupt_example :
+  let s := "xprv9s21ZrQH143K3QTDL4LXw2F7HEK3wJUD2nW2nRk4stbPy6cq3jPPqjiChkVvvNKmPGJxWUtg6LnF5kejMRNNU3TGtRBeJgk33yuGBxrMPHj" in
+  match b58_decode s with
+  | Some bs => length bs = 82%nat /\ skipn 78 bs <> firstn 4 (sha_256d (firstn 78 bs))
+  | None => False
+  end.
+Proof. vm_compute. split; [reflexivity|discriminate]. Qed.
